@@ -17,7 +17,7 @@ ASSUMPTIONS = ["oracle: brute force over all K^T sequences (K^T<=60000) else an 
 SHARD_TIMEOUT = {"quick": 300, "thorough": 3000}
 
 CLASSES = ["gauss", "smallint", "allequal", "mixedmag", "negative", "stayjump_tie", "T1", "K1", "dyadic", "huge_spread", "tiny_units",
-           "int_table", "f32_table"]   # + "large K" (K in {257..1100}) drawn separately
+           "int_table", "f32_table", "flat_stretches"]   # + "large K" (K in {257..1100}) drawn separately
 BETA_FORMS = ["float", "int", "np.float64", "zero", "vector_rand", "vector_zeros", "vector_onezero", "vector_big", "big_scalar",
               "np.float32", "np.int64", "vector_int", "vector_f32"]
 LAYOUTS = ["C", "F", "strided", "readonly"]
@@ -83,6 +83,15 @@ def gen_table(rng, cls, T, K):
             C[t:t + L, k] -= 0.15
             t += L
             k = (k + 1) % K
+        return C
+    if cls == "flat_stretches":
+        # stretches of identical consecutive rows (a recording idling at one level), 1..120 rows long
+        C = np.empty((T, K))
+        t = 0
+        while t < T:
+            L = int(rng.choice([1, 2, 5, 31, 32, 33, 40, 64, 120]))
+            C[t:t + L] = rng.integers(0, 4, size=K).astype(np.float64)
+            t += L
         return C
     if cls == "tiny_units":
         return rng.normal(size=(T, K)) * float(2.0 ** -int(rng.integers(35, 70)))       # the whole problem far below 1e-9
@@ -307,7 +316,7 @@ def make_random_case(desc):
     cls = desc["cls"]
     T, K = desc["T"], desc["K"]
     C = gen_table(rng, cls, T, K)
-    exact = cls in ("smallint", "allequal", "stayjump_tie", "dyadic") and desc["beta_form"] not in ("big_scalar", "vector_big")
+    exact = cls in ("smallint", "allequal", "stayjump_tie", "dyadic", "flat_stretches") and desc["beta_form"] not in ("big_scalar", "vector_big")
     if cls == "int_table" and desc["beta_form"] in ("int", "np.int64", "vector_int", "zero", "vector_zeros"):
         exact = True
     beta = gen_beta(rng, desc["beta_form"], T, C, exact)
@@ -331,6 +340,8 @@ def run_random(spec, res, kernel):
             T, K, cls2 = 1, int(rng.integers(1, 6)), "gauss"
         elif cls == "K1":
             T, K, cls2 = int(rng.integers(1, 12)), 1, "gauss"
+        elif cls == "flat_stretches":
+            T, K, cls2 = int(rng.integers(40, 400)), int(rng.integers(2, 5)), cls
         elif u < 0.034 and not spec.get("jit_bc"):
             # very long tables (size-threshold paths, accumulated rounding)
             T, K, cls2 = int(rng.choice([4097, 10000, 20011])), int(rng.integers(2, 4)), ["gauss", "smallint", "dyadic", "weak_evidence", "weak_evidence"][int(rng.integers(0, 5))]
